@@ -146,20 +146,22 @@ CLAIMED = {
         ref="DESIGN.md section 8, C03"),
     "C13": dict(
         text="Lean theorems: run-time decoder `Cpp.dynDec` (shared bit cursor, int64 cast) = static decoder on every bit string and every supported "
-             "type; run-time encoder `Cpp.dynEnc` (fresh buffer per piece, whole bytes appended) = static encoder on byte-granular types "
-             "(C13_encode_same_partial) with the kernel-checked counterexample {a:u3,b:u5} for the rest (recorded finding); enum width formula "
-             "ceil(log2(max+1)) = static width. The reflection link is C12. Tie: one process loads the reflection binary produced by the Python tool "
-             "and answers static and run-time encode/decode for the same values; sub-byte run-time encodings must equal the whole-byte model.",
-        note="encode half is partial: the full statement is false of the current code (finding dynamic-encode-not-bit-packed, not repaired: it "
-             "needs one shared Buffer threaded through all Encode* functions). Enumerators named vs numbered handled in the JSON glue.",
-        technique="Lean 4 proof (decoder equality; encoder equality on byte-granular types + counterexample) + compiled-code differential check",
+             "type; run-time encoder `Cpp.dynEnc` (one shared Buffer, every scalar through PushWord on a 64-bit carrier) = static encoder = canonical "
+             "bytes for every type and in-range value (C13_encode_same, C13_encode_canonical), round trip through the run-time codec; enum width "
+             "formula ceil(log2(max+1)) = static width. The reflection link is C12. Tie: one process loads the reflection binary produced by the "
+             "Python tool and answers static and run-time encode/decode for the same values (sub-byte fields, signed negatives, every container "
+             "kind, enum boundaries, every width 1..64).",
+        note="The encoder equality became a full theorem after the repair of the whole-byte run-time encoder (known_findings.json, fixed: "
+             "dynamic-encode-not-bit-packed); the pre-repair behaviour is kept as Cpp.oldDynEnc with its counterexample. Enumerators named vs "
+             "numbered handled in the JSON glue; values travel as JSON (no NaN/inf).",
+        technique="Lean 4 proof (decoder and encoder equality with the generated codec) + compiled-code differential check",
         ref="DESIGN.md section 8, C13"),
     "C18": dict(
         text="Lean theorems over `Cpp.encodeFrame`/`Cpp.decodeFrame` (first matching binding, strnlen bus tag, zero-padded 8-byte data): frame = "
              "(bus padded, id, number of canonical bytes, bytes padded); decode(encode) = (name, value) for distinct names and (id, bus) keys; "
              "unmatched (id, bus) -> unknown; static = run-time for decoding. Tie: compiled static and run-time CAN wrappers (ASan+UBSan) vs the "
              "Lean frame model on encodes, decodes of matching frames and of frames with altered id / bus / bus prefix.",
-        note="run-time encode inherits C13's finding on sub-byte payloads; bindings without a bus are outside the property.",
+        note="bindings without a bus are outside the property; altered frames that match another binding are decoded only when their data is an encoding of a value of that binding (enumerators, finite floats).",
         technique="Lean 4 proof (frame model: lookup + padding lemmas + codec round trip) + compiled-code differential check",
         ref="DESIGN.md section 8, C18"),
     "C12": dict(
